@@ -39,12 +39,17 @@ func propC05(r *Run) {
 		simnet.Cur = nw
 		nconn := 1 + r.Choose("nconn", 6)
 		nbase := nconn
-		stopDen := 40
+		stopDen, maxSteps := 40, 400
 		if r.Choose("crowd", 8) == 0 {
 			// many peers at once, most of them slow: nothing the server does for one connection
 			// may depend on how many others are open
 			nconn += 6 + r.Choose("crowd-extra", 10)
 			stopDen = 400
+			if r.Choose("big-crowd", 6) == 0 {
+				nconn += 60 + r.Choose("big-crowd-extra", 30) // more than any plausible fixed-size pool
+				stopDen, maxSteps = 4000, 2500
+				r.Count("probe:runs-with-more-than-64-connections")
+			}
 			r.Count("probe:runs-with-more-than-7-connections")
 		}
 		plans := make([]*connPlan, nconn)
@@ -220,7 +225,7 @@ func propC05(r *Run) {
 
 		steps := 0
 		acceptFaults := 0
-		for steps < 400 {
+		for steps < maxSteps {
 			type act struct {
 				kind string
 				conn int
